@@ -10,6 +10,7 @@ import (
 	"math/rand"
 	"net"
 	"sort"
+	"strings"
 	"sync"
 	"time"
 
@@ -268,70 +269,75 @@ func c13Burst(seed int64) (string, string) {
 	return "", ""
 }
 
-// connectOn performs the handshake for id over an already established TCP connection (so that several handshakes can be
-// released at the same instant).
-func (s *c13Srv) connectOn(id int64, nc net.Conn) (int64, *websocket.Conn) {
-	d := websocket.Dialer{HandshakeTimeout: 3 * time.Second, Subprotocols: []string{"ocpp1.6"},
-		NetDial: func(network, addr string) (net.Conn, error) { return nc, nil }}
-	c, _, err := d.Dial(fmt.Sprintf("ws://127.0.0.1:%d/ws/id%d", s.port, id), nil)
-	if err != nil {
-		return 9, nil
-	}
-	_ = c.SetReadDeadline(time.Now().Add(time.Duration(sched.Slow) * 60 * time.Millisecond))
-	_, _, rerr := c.ReadMessage()
-	if ce, ok := rerr.(*websocket.CloseError); ok {
-		_ = c.Close()
-		if ce.Code == websocket.ClosePolicyViolation {
-			return 4, nil
-		}
-		return 8, nil
-	}
-	_ = c.SetReadDeadline(time.Time{})
-	return 0, c
-}
-
-// synchronised burst: 12 handshakes presenting the same id are released at the same instant (their TCP connections are
-// open already), over several rounds with a fresh id each: exactly one is accepted and reported; monitor only
+// synchronised burst: 12 handshakes presenting the same id reach the server at the same instant: each HTTP upgrade
+// request is sent over its own open TCP connection except for its last two bytes, which are then written on all
+// connections back to back, so that the server's per-connection routines wake up together.  Several rounds with a
+// fresh id each: exactly one handshake is accepted and reported; monitor only.
 func c13SyncBurst(rounds int) (string, string) {
 	s := startC13()
 	defer s.srv.Stop()
 	for round := 0; round < rounds; round++ {
 		id := int64(100 + round)
 		const k = 12
+		req := fmt.Sprintf("GET /ws/id%d HTTP/1.1\r\nHost: 127.0.0.1:%d\r\nUpgrade: websocket\r\nConnection: Upgrade\r\n"+
+			"Sec-WebSocket-Key: dGhlIHNhbXBsZSBub25jZQ==\r\nSec-WebSocket-Version: 13\r\nSec-WebSocket-Protocol: ocpp1.6\r\n\r\n", id, s.port)
 		ncs := make([]net.Conn, 0, k)
 		for i := 0; i < k; i++ {
 			nc, err := net.DialTimeout("tcp", fmt.Sprintf("127.0.0.1:%d", s.port), 2*time.Second)
 			if err != nil {
 				return "C13-burst-handshake", "tcp connect failed: " + err.Error()
 			}
+			if tc, ok := nc.(*net.TCPConn); ok {
+				_ = tc.SetNoDelay(true)
+			}
+			if _, err := nc.Write([]byte(req[:len(req)-2])); err != nil {
+				return "C13-burst-handshake", "write failed: " + err.Error()
+			}
 			ncs = append(ncs, nc)
 		}
-		start := make(chan struct{})
-		codes := make(chan int64, k)
-		conns := make(chan *websocket.Conn, k)
-		var wg sync.WaitGroup
+		time.Sleep(3 * time.Millisecond) // every server routine has parsed its headers and waits for the end of the request
 		for _, nc := range ncs {
-			wg.Add(1)
+			_, _ = nc.Write([]byte("\r\n"))
+		}
+		// outcome per connection: 0 accepted (101 and then silence), 4 refused (101 and a close frame 1008), 9 otherwise
+		codes := make(chan int64, k)
+		for _, nc := range ncs {
 			go func(nc net.Conn) {
-				defer wg.Done()
-				<-start
-				code, c := s.connectOn(id, nc)
-				codes <- code
-				if c != nil {
-					conns <- c
+				_ = nc.SetReadDeadline(time.Now().Add(time.Duration(sched.Slow) * 150 * time.Millisecond))
+				buf := make([]byte, 0, 1024)
+				tmp := make([]byte, 512)
+				for {
+					n, err := nc.Read(tmp)
+					buf = append(buf, tmp[:n]...)
+					if err != nil {
+						break
+					}
+				}
+				h := strings.Index(string(buf), "\r\n\r\n")
+				if !strings.HasPrefix(string(buf), "HTTP/1.1 101") || h < 0 {
+					codes <- 9
+					return
+				}
+				rest := buf[h+4:]
+				switch {
+				case len(rest) == 0:
+					codes <- 0
+				case len(rest) >= 4 && rest[0] == 0x88 && int(rest[2])<<8|int(rest[3]) == websocket.ClosePolicyViolation:
+					codes <- 4
+				default:
+					codes <- 8
 				}
 			}(nc)
 		}
-		close(start)
-		wg.Wait()
-		close(codes)
-		close(conns)
 		accepted := 0
-		for code := range codes {
-			if code == 0 {
+		var other int64 = -1
+		for i := 0; i < k; i++ {
+			switch c := <-codes; c {
+			case 0:
 				accepted++
-			} else if code != 4 {
-				return "C13-burst-handshake", fmt.Sprintf("unexpected handshake outcome %d", code)
+			case 4:
+			default:
+				other = c
 			}
 		}
 		s.settle()
@@ -341,8 +347,11 @@ func c13SyncBurst(rounds int) (string, string) {
 				connected++
 			}
 		}
-		for c := range conns {
-			_ = c.Close()
+		for _, nc := range ncs {
+			_ = nc.Close()
+		}
+		if other >= 0 {
+			return "C13-burst-handshake", fmt.Sprintf("round %d: unexpected handshake outcome %d", round, other)
 		}
 		if accepted != 1 {
 			return "C13-two-live-connections", fmt.Sprintf("round %d: %d of 12 simultaneous handshakes with one id were accepted", round, accepted)
